@@ -290,7 +290,10 @@ class World:
         self.fetchlog = FetchLog()
         self.key_of_path = {}
         self.path_of_key = {}
-        self.cache_dir = "/SIMFS/" + k.get("cache_dir", "cache")
+        # a relative cache path resolves against the simulated process' working directory
+        self.cwd = "/SIMFS/cwd" if k.get("relative_path") else None
+        self.cache_dir = (self.cwd + "/" if self.cwd else "/SIMFS/") + k.get("cache_dir", "cache")
+        self.cache_arg = k.get("cache_dir", "cache") if self.cwd else self.cache_dir
         for i, kd in enumerate(self.keys):
             p = self.cache_dir + "/" + cache_file_name(kd)
             self.key_of_path[p] = i
@@ -411,7 +414,13 @@ class World:
             return cands[0]
         return None
 
+    def abs(self, path):
+        if self.cwd and isinstance(path, str) and not path.startswith("/"):
+            return posixpath.normpath(posixpath.join(self.cwd, path))
+        return path
+
     def _attribute_key(self, filepath, res):
+        filepath = self.abs(filepath)
         key = self.key_for_path(filepath)
         if key is not None:
             return key
@@ -501,7 +510,7 @@ class World:
         key = self._attribute_key(filepath, None)
         if key is not None:
             self.actor_key[self.sched.owner()] = key
-        self.pp_calls.append((self.director.op, key, filepath))
+        self.pp_calls.append((self.director.op, key, self.abs(filepath)))
         fault = self.director.take_fault(PP_FAULTS, key, None)
         kind = fault["kind"] if fault else None
         if kind == "PP_ERR_BEFORE":
@@ -609,13 +618,13 @@ class World:
         size_gb = size_bytes / 1e9
         if self.knobs.get("api", "object") == "module":
             self.fc._ACTIVE_FILE_CACHES.clear()
-            self.fc.create_cache(CACHE_NAME, self.cache_dir, cache_size_GB=size_gb, do_cache_eviction_on_startup=evict,
+            self.fc.create_cache(CACHE_NAME, self.cache_arg, cache_size_GB=size_gb, do_cache_eviction_on_startup=evict,
                                  download_in_parallel=parallel, resources=self._resources())
             self.cache = self.fc.get_cache(CACHE_NAME)
             self.fc.set_directive_function("postprocess", "pp", self._pp, CACHE_NAME)
             self.fc.set_directive_function("validate", "v", self._validate, CACHE_NAME)
         else:
-            self.cache = self.co.FileCache(self.cache_dir, size_GB=size_gb, do_cache_eviction_on_startup=evict,
+            self.cache = self.co.FileCache(self.cache_arg, size_GB=size_gb, do_cache_eviction_on_startup=evict,
                                            resources=self._resources(), parallel=parallel,
                                            allow_for_missing_files=allow_missing)
             self.cache.set_directive_function("postprocess", "pp", self._pp)
@@ -681,7 +690,7 @@ class World:
         tz_was = _os.environ.get("TZ")
         _os.environ["TZ"] = self.knobs.get("tz", "UTC")  # the process' time zone is part of the configuration
         _t.tzset()
-        interpose.bind(self.fs, self.sched, self.clock, entropy_seed=mix(self.record["seed"], "entropy"))
+        interpose.bind(self.fs, self.sched, self.clock, entropy_seed=mix(self.record["seed"], "entropy"), cwd=self.cwd)
         simpool.bind(self.sched)
         self._patch_modules()
         if self.canary is not None:
@@ -745,6 +754,8 @@ class World:
     def _run_inner(self):
         k = self.knobs
         self.fs.h_mkdirs("/SIMFS")
+        if self.cwd:
+            self.fs.h_mkdirs(self.cwd)
         self.sync_remote_files()
         self.oracle = self.oracle_factory(self) if self.oracle_factory else None
         ops = list(self.record["ops"])
@@ -917,7 +928,12 @@ class World:
                     ov = op["val"][pos] if pos < len(op["val"]) else None
                     uris.append(self.uris[i] if ov is None else key_uri(dict(self.keys[i], val=bool(ov))))
             arg = uris[0] if (len(uris) == 1 and op.get("as_str")) else uris
-            obs.result = self._get(arg)
+            res = self._get(arg)
+            if self.cwd and isinstance(res, list):
+                # paths relative to the working directory are as good as absolute ones
+                res = [posixpath.normpath(posixpath.join(self.cwd, p)) if isinstance(p, str) and not p.startswith("/") else p
+                       for p in res]
+            obs.result = res
         elif kind == "REMOVE":
             obs.result = self._remove(self.uris[op["key"]])
         elif kind == "PURGE":
